@@ -594,7 +594,9 @@ func c05RunFlow(flow string, seed int64, pos int, sub func(req, reply []byte, e 
 		{ID: 0x80, OEM: true, IANA: 0x1234, Auth: 2, Integs: []byte{2, 3}, Confs: []byte{1, 2}}, {ID: 8, Auth: 2, Integs: []byte{2}, Confs: []byte{1}}})}
 	sd := &refbmc.SensorDevice{}
 	sd.Set(fsr1[1]&3, fsr1[2], []byte{0x55, 0x40, 0x00})
-	dc := &refbmc.DCMISensorInfo{PageSize: 3, IDs: map[[2]byte][]uint16{{1, 0x40}: {1, 2, 3, 4}, {1, 0x41}: {9}, {1, 0x42}: {}}}
+	// the BMC reports two more instances per entity than it returns record IDs for (pages past
+	// the real ones come back empty): the enumeration has to stop by itself
+	dc := &refbmc.DCMISensorInfo{PageSize: 3, Overclaim: 2, IDs: map[[2]byte][]uint16{{1, 0x40}: {1, 2, 3, 4}, {1, 0x41}: {9}, {1, 0x42}: {}}}
 	e.BMC.Handler = refbmc.Chain(repo.Handle, cs.Handle, sd.Handle, dc.Handle,
 		refbmc.Fixed(6, 0x37, 0, rbytes(r, 16)), refbmc.Fixed(6, 0x38, 0, []byte{1, 0x80, 0x04, 0x02, 0, 0, 0, 0}),
 		refbmc.Fixed(6, 0x01, 0, []byte{0x20, 0x81, 0x03, 0x15, 0x02, 0xbf, 0x57, 0x01, 0x00, 0x34, 0x12, 1, 2, 3, 4}), refbmc.Fixed(6, 0x3c, 0, nil))
